@@ -41,12 +41,19 @@ def api_calls():
 
 def canary(events):
     def ok(ev):
-        return ev['op'] == 'simplify' and ev['out'] == 'ok'
+        return ev['op'] == 'simplify' and ev['out'] == 'ok' and ev['in'].get('cls') not in ('HplPredicateExpression', 'HplVacuousTruth', 'HplContradiction')
 
     def mut(c):
+        c['outs'] = [{'cls': 'HplVacuousTruth', 'metadata': []}]      # an expression went in, a predicate came out
+    a = corrupt_first(events, ok, mut, 1)
+
+    def ok2(ev):
+        return ev['op'] == 'split_and' and ev['out'] == 'ok'
+
+    def mut2(c):
         c['out'] = 'KeyError'
         c['outs'] = []
-    return corrupt_first(events, ok, mut, 1)
+    return a + corrupt_first(events, ok2, mut2, 2)
 
 
 def run(replay=None):
